@@ -187,3 +187,33 @@ func c13ListenControllerZone(iana bool) {
 
 func VerifC13_ListenControllerZone()      { c13ListenControllerZone(false) }
 func VerifC13_ListenControllerZone_IANA() { c13ListenControllerZone(true) }
+
+// get-time for a controller configured with its own time zone: the date-time returned is the transmitted wall
+// clock (bytes 8..14: YYYYMMDDHHmmss), whatever that zone does to it
+func c13GetTimeControllerZone(iana bool) {
+	z, loc := c13ZonedReplyIn(iana, true)
+	r := make([]byte, 64)
+	r[0], r[1] = 0x17, 0x32
+	specPut32(r, 4, z.id)
+	r[8], r[9], r[10], r[11] = 0x20, z.r[51], z.r[52], z.r[53]
+	r[12], r[13], r[14] = z.r[37], z.r[38], z.r[39]
+	dr := &vDriver{seq: [][]byte{r}, reply: r}
+	u := vClient(dr)
+	u.devices[z.id] = Device{Name: "alpha", DeviceID: z.id, Address: types.ControllerAddrFrom(netip.AddrFrom4([4]byte{192, 168, 1, 100}), 60000), Protocol: "udp", TimeZone: loc}
+	tm, err := u.GetTime(z.id)
+	verifAssert(err == nil && tm != nil, "GetTime (controller zone): a well-formed reply is returned")
+	if tm != nil {
+		t := time.Time(tm.DateTime)
+		verifObserve("time.day", t.Day())
+		verifObserve("time.hour", t.Hour())
+		verifAssert(t.Year() == z.y && int(t.Month()) == z.mo && t.Day() == z.d, "GetTime (controller zone): the date-time reports the transmitted calendar day")
+		verifAssert(t.Hour() == z.hh && t.Minute() == z.mi && t.Second() == z.ss, "GetTime (controller zone): the date-time reports the transmitted time of day")
+		verifAssert(t.Format("2006-01-02 15:04:05") == c13Text(z), "GetTime (controller zone): the date-time prints as the transmitted wall clock")
+	}
+	verifReach("c13.gettime.controllerzone")
+}
+
+func VerifC13_GetTimeControllerZone()      { c13GetTimeControllerZone(false) }
+func VerifC13_GetTimeControllerZone_IANA() { c13GetTimeControllerZone(true) }
+func VerifC02_GetTimeControllerZone()      { c13GetTimeControllerZone(false) }
+func VerifC02_GetTimeControllerZone_IANA() { c13GetTimeControllerZone(true) }
